@@ -12,7 +12,7 @@ import (
 	"math/rand"
 	"os"
 	"path/filepath"
-	"runtime"
+	"sort"
 	"strings"
 
 	bm "github.com/microcosm-cc/bluemonday"
@@ -212,6 +212,16 @@ func writeTokMatches(w Tok, t Tok) bool {
 type polCacheEntry struct {
 	real  *bm.Policy
 	model *AP
+	uses  int
+}
+
+func hasProp(props []string, p string) bool {
+	for _, x := range props {
+		if x == p {
+			return true
+		}
+	}
+	return false
 }
 
 // cmdReplay: read CASE lines of the loop machine on stdin, replay each into the real code.
@@ -459,6 +469,8 @@ func init() {
 	Commands["repro"] = cmdRepro
 }
 
+var sweptRecipes = map[int]bool{}
+
 type attrsCase struct {
 	Rid   int    `json:"rid"`
 	El    string `json:"el"`
@@ -531,23 +543,46 @@ func cmdReplayAttrs(args []string) int {
 	return 0
 }
 
-// memGuard: a change to the library may make a policy grow with every call; rather than let the
-// harness be killed, drop the cached real policies when the heap has grown unreasonably (their
-// misbehaviour between two resets is still observed by the oracles).
-var memGuardResets int
-
+// memGuard: a change to the library may make a policy grow with every call (for instance by appending
+// into its own rule tables); rather than let the harness be killed, the cached real policies are
+// rebuilt every 16 cases, which bounds any such growth (their misbehaviour inside a window is still
+// observed by the oracles).
 func memGuard(cache map[int]*polCacheEntry, n int) {
-	if n%2 != 0 {
-		return
-	}
-	var m runtime.MemStats
-	runtime.ReadMemStats(&m)
-	if m.HeapAlloc > 1<<28 {
+	if n%16 == 0 {
 		for k := range cache {
 			delete(cache, k)
 		}
-		memGuardResets++
-		
+	}
+}
+
+// pairSweep: order-dependent state inside a policy (a rule table polluted by an earlier call, a cache) only
+// shows after a particular earlier tag. Once per recipe, every ordered pair (earlier element, later
+// single-attribute tag) of the family is run on a FRESH policy and the later tag judged by the oracles.
+func pairSweep(fam *Family, rid int, res *RunResult, props []string, seenV map[string]bool) {
+	recipe := fam.Recipes[rid-1]
+	model := BuildAP(recipe)
+	els := []string{}
+	for el := range fam.Attrs {
+		els = append(els, Dec(el))
+	}
+	sort.Strings(els)
+	for _, e1 := range els {
+		first := Serialise([]Tok{{T: "start", N: e1, A: []Attr{{"title", "t"}, {"class", "abc"}, {"style", "color: red"}}}}, nil)
+		for el, as := range fam.Attrs {
+			for _, a := range decAttrs(as) {
+				toks := []Tok{{T: "start", N: Dec(el), A: []Attr{a}}}
+				b := Serialise(toks, nil)
+				if !ReadsBackAs(b, toks) {
+					continue
+				}
+				real := BuildReal(recipe)
+				real.SanitizeBytes(first)
+				real.SanitizeBytes(first)
+				rec, out := RunRecorded(real, b)
+				res.Execs++
+				res.judge(props, NewExec(recipe, model, real, b, out, rec), seenV)
+			}
+		}
 	}
 }
 
@@ -555,6 +590,10 @@ func replayAttrsCase(fam *Family, c *attrsCase, res *RunResult, rng *rand.Rand, 
 	cache map[int]*polCacheEntry, seenV, seenNT map[string]bool) {
 	res.Cases++
 	memGuard(cache, res.Cases)
+	if !sweptRecipes[c.Rid] {
+		sweptRecipes[c.Rid] = true
+		pairSweep(fam, c.Rid, res, props, seenV)
+	}
 	pe := cache[c.Rid]
 	recipe := fam.Recipes[c.Rid-1]
 	if pe == nil {
@@ -564,6 +603,7 @@ func replayAttrsCase(fam *Family, c *attrsCase, res *RunResult, rng *rand.Rand, 
 			res.diverge("recipe %d: real policy differs from the model: %s", c.Rid, d[0])
 		}
 	}
+	pe.uses++
 	as, want := decAttrs(c.As), decAttrs(c.Res)
 	toks := []Tok{{T: "start", N: Dec(c.El), A: as}}
 	for v := 0; v < variants; v++ {
